@@ -193,3 +193,32 @@ Theorem C12_cursor_functions_are_source : forall (E : env) (s : st) (buf : bytes
 Proof. exact (@CursorSrc.cursor_model_is_translated_source). Qed.
 Print Assumptions C12_cursor_functions_are_source.
 
+From Coq Require Import String List NArith Lia.
+From SJ Require Import Base.Bytes Gen.Tables Model.Read Model.Value Model.Stream Model.ScanAst Gen.CursorTables Proofs.CursorSrc
+  Model.StreamAst Gen.StreamTables Proofs.StreamProps.
+Require SJ.Model.ReadAst SJ.Gen.ReadTables.
+From SJ Require Import Proofs.StreamSrc.
+Local Open Scope string_scope.
+Local Open Scope list_scope.
+Theorem C12_stream_iterator_is_source :
+  (* next *)
+  (forall t E itemp ss, rk E = rty_kind t ->
+     run_next t E CURSOR_TABLE READER_IMPLS es_model (itemp E) NEXT_BODY ss = next_outcome E itemp ss (stream_next E itemp ss)) /\
+  (* set_failed / should_early_return_if_failed of IoRead, SliceRead, StrRead, &mut R *)
+  (forall t E ss, rk E = rty_kind t ->
+     run_set_failed READER_IMPLS t (ss_st ss) (ss_failed ss) = Ok (ss_st (set_failed E ss), ss_failed (set_failed E ss))
+     /\ ss_off (set_failed E ss) = ss_off ss) /\
+  (forall t E, rk E = rty_kind t -> early_of READER_IMPLS t = Some (is_io E)) /\
+  (forall r s f, run_set_failed READER_IMPLS (TyMutRef r) s f = run_set_failed READER_IMPLS r s f) /\
+  (forall r, early_of READER_IMPLS (TyMutRef r) = early_of READER_IMPLS r) /\
+  (* StreamDeserializer::new, Deserializer::into_iter, byte_offset; in every build *)
+  (forall B r, run_ctor B CTOR_TABLE "StreamDeserializer::new" [CvReader r]
+               = Ok (stream_val B (mkDeser r [] DEPTH0 false false) (rd_off r) false)) /\
+  (forall input, sstate_of (mkDeser (fresh_reader input) [] DEPTH0 false false) 0 false = stream_init input) /\
+  (forall B d, run_ctor B CTOR_TABLE "Deserializer::into_iter" [deser_val B d] = Ok (stream_val B d (rd_off (d_read d)) false)) /\
+  (forall B d offset failed, run_ctor B CTOR_TABLE "StreamDeserializer::byte_offset" [stream_val B d offset failed] = Ok (CvUsize offset)) /\
+  (* FusedIterator *)
+  (FUSED_BOUND = true /\ FUSED_READERS = ["SliceRead"; "StrRead"]).
+Proof. exact (@StreamSrc.stream_iterator_is_translated_source). Qed.
+Print Assumptions C12_stream_iterator_is_source.
+
